@@ -771,6 +771,17 @@ pub fn run_ident(out: &mut CaseOut, ctx: &Ctx, idx: u64) {
                 }
             }
             out.count("ident_defsrc_columns_inspected", l.src_keys.len() as u64);
+            for (li, layer) in l.layers.iter().enumerate() {
+                out.inc("ident_layer_cells0_inspected");
+                if layer[0][0] != Action::NoOp {
+                    out.violate(
+                        format!("C11:defsrc-identity:cell0-not-noop:{}", ic.upper),
+                        format!("cell (0,0) of layer #{li} is {:?}, expected NoOp ({})", layer[0][0], o.label()),
+                        json!({"config": ic.cfg, "history": "(parse only)", "observed": format!("{:?}", layer[0][0]), "expected": "NoOp", "layer_index": li}),
+                    );
+                    break;
+                }
+            }
             if let Some((i, got, wanted)) = bad {
                 out.violate(
                     format!("C11:defsrc-layer:not-identity:{dl}"),
